@@ -17,13 +17,13 @@ type GCase struct {
 }
 
 func quickClasses() []gram.Class {
-	return []gram.Class{{N: 2, T: 2, L: 2, R: 3}, {N: 1, T: 2, L: 3, R: 3}}
+	return []gram.Class{{N: 2, T: 2, L: 2, R: 3}, {N: 1, T: 2, L: 3, R: 3}, {N: 1, T: 2, L: 4, R: 2}}
 }
 
 func thoroughClasses() []gram.Class {
 	return []gram.Class{
 		{N: 2, T: 2, L: 2, R: 4}, {N: 1, T: 2, L: 3, R: 4}, {N: 2, T: 3, L: 2, R: 3},
-		{N: 3, T: 2, L: 2, R: 3}, {N: 1, T: 3, L: 3, R: 3}, {N: 2, T: 2, L: 3, R: 3},
+		{N: 3, T: 2, L: 2, R: 3}, {N: 1, T: 3, L: 3, R: 3}, {N: 2, T: 2, L: 3, R: 3}, {N: 1, T: 2, L: 4, R: 3},
 	}
 }
 
